@@ -407,10 +407,10 @@ Proof. change (cleaned input) with (ntnl (input_new_trim_c0 input)). symmetry. a
 
 (* no base, a scheme *)
 Lemma known_exact_nobase input sch R :
-  spec_scheme (spec_clean input) = Some (sch, R) -> known_c01 None input = 0 ->
+  spec_scheme (spec_clean input) = Some (sch, R) -> known_c01_v1 None input = 0 ->
   list_eqb sch str_file = false /\ k_absolute (is_special_scheme sch) R = 0.
 Proof.
-  intros Hs Hk. unfold known_c01 in Hk. cbv zeta in Hk. rewrite cleaned_spec_clean in Hk.
+  intros Hs Hk. unfold known_c01_v1 in Hk. cbv zeta in Hk. rewrite cleaned_spec_clean in Hk.
   destruct (spec_scheme_some_leading _ _ _ Hs) as [E1 E2]. rewrite E1, E2 in Hk.
   change s_file with str_file in Hk. rewrite special_name in Hk.
   destruct (list_eqb sch str_file); [discriminate Hk|]. cbn [orb andb] in Hk. split; [reflexivity | exact Hk].
@@ -419,12 +419,12 @@ Qed.
 (* a base, no scheme in the reference: the reference is bare (empty, '?...', '#...'), or the base is not
    file and the reference is outside classes 2-4 *)
 Lemma known_exact_base_noscheme b input :
-  spec_scheme (spec_clean input) = None -> known_c01 (Some b) input = 0 ->
+  spec_scheme (spec_clean input) = None -> known_c01_v1 (Some b) input = 0 ->
   k_bare_ref (spec_clean input) = true
   \/ (list_eqb (b_scheme b) str_file = false
       /\ k_relative (is_special_scheme (b_scheme b)) b (spec_clean input) = 0).
 Proof.
-  intros Hs Hk. unfold known_c01 in Hk. cbv zeta in Hk. rewrite cleaned_spec_clean in Hk.
+  intros Hs Hk. unfold known_c01_v1 in Hk. cbv zeta in Hk. rewrite cleaned_spec_clean in Hk.
   rewrite (spec_scheme_none_leading _ Hs) in Hk.
   change s_file with str_file in Hk. rewrite special_name in Hk.
   destruct (k_bare_ref (spec_clean input)); [left; reflexivity | right].
@@ -433,12 +433,12 @@ Qed.
 
 (* a base, a scheme in the reference *)
 Lemma known_exact_base_scheme b input sch R :
-  spec_scheme (spec_clean input) = Some (sch, R) -> known_c01 (Some b) input = 0 ->
+  spec_scheme (spec_clean input) = Some (sch, R) -> known_c01_v1 (Some b) input = 0 ->
   list_eqb sch str_file = false
   /\ (if is_special_scheme sch && list_eqb sch (b_scheme b) && negb (k_two_sl R)
       then k_relative (is_special_scheme sch) b R else k_absolute (is_special_scheme sch) R) = 0.
 Proof.
-  intros Hs Hk. unfold known_c01 in Hk. cbv zeta in Hk. rewrite cleaned_spec_clean in Hk.
+  intros Hs Hk. unfold known_c01_v1 in Hk. cbv zeta in Hk. rewrite cleaned_spec_clean in Hk.
   destruct (spec_scheme_some_leading _ _ _ Hs) as [E1 E2]. rewrite E1, E2 in Hk.
   change s_file with str_file in Hk. rewrite special_name in Hk.
   destruct (list_eqb sch str_file); [discriminate Hk|]. cbn [orb andb] in Hk. split; [reflexivity | exact Hk].
@@ -448,10 +448,10 @@ Qed.
 Lemma known_exact_absolute b input sch R :
   spec_scheme (spec_clean input) = Some (sch, R) ->
   is_special_scheme sch && list_eqb sch (b_scheme b) && negb (k_two_sl R) = false ->
-  known_c01 (Some b) input = 0 -> known_c01 None input = 0.
+  known_c01_v1 (Some b) input = 0 -> known_c01_v1 None input = 0.
 Proof.
   intros Hs Hi Hk. destruct (known_exact_base_scheme b input sch R Hs Hk) as [Hf Hr]. rewrite Hi in Hr.
-  unfold known_c01. cbv zeta. rewrite cleaned_spec_clean.
+  unfold known_c01_v1. cbv zeta. rewrite cleaned_spec_clean.
   destruct (spec_scheme_some_leading _ _ _ Hs) as [E1 E2]. rewrite E1, E2.
   change s_file with str_file. rewrite special_name, Hf. cbn [orb andb]. exact Hr.
 Qed.
